@@ -2581,6 +2581,177 @@ def r31_slice_empty_match(toks, counts):
     return out
 
 
+# ---- R33: calls of NEW helper functions of the same file are replaced by the helper's body -------------------------------------
+
+def _find_fn_items(src_toks, name):
+    """all `fn name` items of the file: list of (kw_index)"""
+    out = []
+    for i, t in enumerate(src_toks):
+        if is_id(t, 'fn'):
+            nx = next_sig(src_toks, i + 1)
+            if nx < len(src_toks) and is_id(src_toks[nx], name):
+                out.append(i)
+    return out
+
+
+def _helper_parts(src_toks, kw):
+    """(params, has_self, body_tokens_without_braces) of the fn item whose `fn` keyword is at kw; None if unsupported"""
+    n = len(src_toks)
+    nm = next_sig(src_toks, kw + 1)
+    k = next_sig(src_toks, nm + 1)
+    if k < n and is_p(src_toks[k], '<'):
+        return None            # generic helper: not inlined
+    if k >= n or not is_p(src_toks[k], '('):
+        return None
+    cl = match_close(src_toks, k)
+    params = []
+    cur = []
+    has_self = False
+    q = k + 1
+    while q < cl:
+        x = src_toks[q]
+        if x[0] == 'p' and x[1] in '([<':
+            if x[1] == '<':
+                cur.append(x)
+                q += 1
+                continue
+            c = match_close(src_toks, q)
+            cur += src_toks[q:c + 1]
+            q = c + 1
+            continue
+        if is_p(x, ','):
+            params.append(cur)
+            cur = []
+        else:
+            cur.append(x)
+        q += 1
+    if [y for y in cur if y[0] not in TRIVIA]:
+        params.append(cur)
+    plist = []
+    for prm in params:
+        sig = [y for y in prm if y[0] not in TRIVIA]
+        if any(is_id(y, 'self') for y in sig) and not any(is_p(y, ':') for y in sig):
+            has_self = True
+            continue
+        # split at the first `:` (not `::`)
+        idx = None
+        for j, y in enumerate(prm):
+            if is_p(y, ':') and not (j + 1 < len(prm) and is_p(prm[j + 1], ':')) and not (j > 0 and is_p(prm[j - 1], ':')):
+                idx = j
+                break
+        if idx is None:
+            return None
+        plist.append((_flat(prm[:idx]), _flat(prm[idx + 1:])))
+    b = cl + 1
+    while b < n and not is_p(src_toks[b], '{') and not is_p(src_toks[b], ';'):
+        if src_toks[b][0] == 'p' and src_toks[b][1] in '([':
+            b = match_close(src_toks, b)
+        b += 1
+    if b >= n or not is_p(src_toks[b], '{'):
+        return None
+    e = match_close(src_toks, b)
+    body = src_toks[b + 1:e]
+    return plist, has_self, body
+
+
+def inline_helpers(item, src_toks, names, counts):
+    """calls `name(args)`, `Self::name(args)` or `self.name(args)` of helper functions that did not exist in the golden extraction (they
+    are new in the changed tree and have no contract) are replaced by `{ let inl_k = arg_k; ..; let param_k: T_k = inl_k; ..; BODY }`
+    -- the definition of a call.  Only helpers without generics and without `return`; a helper using `?` only where the call itself
+    is followed by `?`.  Anything else raises (the unit stays UNDECIDED)."""
+    serial = 0
+    changed = True
+    while changed:
+        changed = False
+        out = []
+        i = 0
+        n = len(item)
+        while i < n:
+            t = item[i]
+            if t[0] == 'id' and t[1] in names:
+                op = next_sig(item, i + 1)
+                pv = prev_sig(item, i - 1)
+                if op < n and is_p(item[op], '(') and not (pv >= 0 and is_id(item[pv], 'fn')):
+                    kws = _find_fn_items(src_toks, t[1])
+                    if len(kws) != 1:
+                        raise ExtractError('R33: helper %s is not defined exactly once in the file' % t[1])
+                    parts = _helper_parts(src_toks, kws[0])
+                    if parts is None:
+                        raise ExtractError('R33: helper %s has a shape that is not inlined (generics / patterns)' % t[1])
+                    plist, has_self, body = parts
+                    if any(is_id(x, 'return') for x in body):
+                        raise ExtractError('R33: helper %s uses `return`' % t[1])
+                    cl = match_close(item, op)
+                    # what precedes the name: `self.` (method), `Self::` / `path::` (associated / free), or nothing
+                    start = len(out)
+                    if pv >= 0 and is_p(item[pv], '.'):
+                        rv = prev_sig(item, pv - 1)
+                        if not (has_self and rv >= 0 and is_id(item[rv], 'self')):
+                            raise ExtractError('R33: helper %s is called on a receiver other than `self`' % t[1])
+                        # drop `self .` already emitted
+                        while out and not is_id(out[-1], 'self'):
+                            out.pop()
+                        out.pop()
+                    elif pv >= 1 and is_p(item[pv], ':') and is_p(item[pv - 1], ':'):
+                        # drop the path prefix `Self::` / `module::`
+                        while out and (out[-1][0] in TRIVIA or is_p(out[-1], ':')):
+                            out.pop()
+                        if out and out[-1][0] == 'id':
+                            out.pop()
+                    # arguments
+                    args = []
+                    cur = []
+                    q = op + 1
+                    while q < cl:
+                        x = item[q]
+                        if x[0] == 'p' and x[1] in rtok.OPEN:
+                            c = match_close(item, q)
+                            cur += item[q:c + 1]
+                            q = c + 1
+                            continue
+                        if is_p(x, ','):
+                            args.append(cur)
+                            cur = []
+                        else:
+                            cur.append(x)
+                        q += 1
+                    if [y for y in cur if y[0] not in TRIVIA]:
+                        args.append(cur)
+                    if len(args) != len(plist):
+                        raise ExtractError('R33: helper %s: %d arguments for %d parameters' % (t[1], len(args), len(plist)))
+                    # a `?` inside the helper leaves the helper; after inlining it leaves the caller: the same only if the call is `helper(..)?`
+                    after = next_sig(item, cl + 1)
+                    if after < n and is_p(item[after], '.'):
+                        a2 = next_sig(item, after + 1)
+                        if a2 < n and is_id(item[a2], 'await'):
+                            after = next_sig(item, a2 + 1)
+                    if any(is_p(x, '?') for x in body) and not (after < n and is_p(item[after], '?')):
+                        raise ExtractError('R33: helper %s uses `?` but the call is not followed by `?`' % t[1])
+                    serial += 1
+                    ind = _indent_of_line_containing(out, len(out)) if out else ''
+                    lines = ['{']
+                    for k2, a in enumerate(args):
+                        lines.append('%s    let inl%d_%d = %s;' % (ind, serial, k2, _flat(a)))
+                    for k2, (pat, ty) in enumerate(plist):
+                        if 'impl ' in ty or ty.startswith('impl'):
+                            lines.append('%s    let %s = inl%d_%d;' % (ind, pat, serial, k2))
+                        else:
+                            lines.append('%s    let %s: %s = inl%d_%d;' % (ind, pat, ty, serial, k2))
+                    out += rtok.tokenize('\n'.join(lines) + '\n')
+                    out += body
+                    out += [('ws', '\n' + ind), ('p', '}')]
+                    counts['R33'] = counts.get('R33', 0) + 1
+                    i = cl + 1
+                    changed = True
+                    # copy the rest and restart (the inlined body may call further helpers)
+                    out += item[i:]
+                    break
+            out.append(t)
+            i += 1
+        item = out
+    return item
+
+
 def cleanup_lines(text):
     lines = [l.rstrip() for l in text.split('\n')]
     return [l for l in lines if l.strip() != '']
@@ -2600,6 +2771,8 @@ def extract_region(src_text, path, opts=None):
     # keep the indentation of the first line
     indent = _line_indent(toks, s)
     counts = {}
+    if opts.get('inline'):
+        item = inline_helpers(item, toks, set(opts['inline']), counts)
     item = strip_comments(item, counts)
     rules = [r for r in DEFAULT_RULES if r not in opts.get('skip', ())]
     for r in rules:
